@@ -69,7 +69,21 @@ pub fn gen_step(s: &mut Incent, rng: &mut Rng, ctx: &mut Ctx) -> Step {
         let long_flow = o.flows.iter().any(|f| f.end_latest() > e + 125 && f.start <= e + 1);
         if let (Some(actor), true) = (staker, long_flow) {
             ctx.probe("script_claim_gap_beyond_cap_then_series");
-            return Step { actor, op: Op::ClaimMarathon { gap: rng.range(101, 106) as u32, rounds: rng.range(12, 24) as u32 }, adv_s: 0, fault: Fault::None };
+            let marathon = Step { actor, op: Op::ClaimMarathon { gap: rng.range(101, 118) as u32, rounds: rng.range(12, 30) as u32 }, adv_s: 0, fault: Fault::None };
+            // first a second, properly funded flow in the same reward asset (so that an over-paying claim
+            // would have other flows' tokens to take), then the marathon
+            let f = o.flows.iter().find(|f| f.end_latest() > e + 125 && f.start <= e + 1).unwrap();
+            if let Some(asset) = s.asset_index(&f.asset) {
+                let creator = s.i_creator(rng.idx(2));
+                let fee = s.cfg.fee_amount;
+                let same = asset == s.fee_asset();
+                let declared = (o.bal[creator][asset] / 8).max(2000).saturating_add(if same { fee } else { 0 });
+                if o.bal[creator][asset] >= declared && (o.flows.len() as u64) < s.cfg.max_flows {
+                    s.script = vec![marathon];
+                    return Step { actor: creator, op: Op::OpenFlow { asset, declared, sent: declared, fee_sent: fee, extra: None, start: None, end: None, label: None }, adv_s: 0, fault: Fault::None };
+                }
+            }
+            return marathon;
         }
     }
     let na = s.na();
